@@ -43,11 +43,11 @@ CLAIMS = {
             "independent reference codec is trusted and self-checked on every case",
             "runtime monitoring: round-trip differential oracle over enumerated/generated packets, ASan/UBSan", "codec_probe"),
     "C19": ("exploration",
-            "hostile packet bodies (structured length-field sweeps, truncations, mutations, random bytes) are decoded flush against a PROT_NONE page under ASan/UBSan; structurally broken packets must be rejected, accepted ones must equal the reference decoding",
-            "guard page + clang sanitizers are the memory oracle; unit level (decoders) in this round",
+            "hostile packet bodies (structured length-field sweeps, truncations, mutations, random bytes) are decoded flush against a PROT_NONE page under ASan/UBSan; structurally broken packets must be rejected, accepted ones must equal the reference decoding; a libFuzzer target with the same oracles; and the real client against hostile broker bytes in every phase (instead of CONNACK, after it, with requests outstanding, mid QoS 2 in both directions), each stream under three chunkings: no sanitizer report, exception, assertion or livelock, chunking-independent responses up to the client's DISCONNECT, no request completed without a well-formed acknowledgement in the hostile bytes, recovery within 90 virtual seconds",
+            "guard page + clang sanitizers are the memory oracle; the simulator and the reference codec are the environment model",
             "runtime monitoring: guard-page + sanitizer oracle and differential oracle over structured hostile inputs", "codec_probe"),
     "C20": ("exploration",
-            "every (packet category, byte) pair of the finite 9x256 input space is executed against the real lookup under ASan with guarded tables and compared with the MQTT 5 admission tables; exhaustive over inputs, still a runtime observation; plus the lookups at their call sites: 3 x 256 scenarios on the real client (Server DISCONNECT, CONNACK, Server AUTH with every byte as reason code) judged through the logger and the client's reaction",
+            "every (packet category, byte) pair of the finite 9x256 input space is executed against the real lookup under ASan with guarded tables and compared with the MQTT 5 admission tables; exhaustive over inputs, still a runtime observation; plus the lookups at their call sites: 11 x 256 scenarios on the real client (every byte as the reason code of Server DISCONNECT, CONNACK, Server AUTH, SUBACK, UNSUBACK, each also as a surplus code, PUBACK, PUBREC, PUBCOMP, inbound PUBREL) judged through the logger, the completion handler's values and the client's next packet",
             "transcription of the MQTT 5 reason-code tables; clang ASan global red zones",
             "runtime monitoring: exhaustive input sweep under AddressSanitizer + reference-table oracle", "rc_probe"),
 }
